@@ -1,5 +1,5 @@
 """C12 the grammar front end accepts any text without panicking and with valid spans."""
-from .. import panicrules
+from .. import panicrules, lexrules
 
 LEVEL = "other"
 EXHAUSTIVE = True
@@ -16,6 +16,7 @@ def run(ctx, rep):
     rep.floor("PANIC", 35, "audited panic sites")
     panicrules.span_rule(ctx, rep)
     panicrules.gate_rule(ctx, rep)
+    lexrules.lexbal_rule(ctx, rep, esc=False)
     rep.assume("dependencies (logos and its derive output, codespan-reporting, std) do not panic when their documented preconditions hold")
     rep.assume("stderr is writable")
     rep.assume("recursion depth (stack exhaustion on deeply nested input) is not analysed")
